@@ -199,23 +199,58 @@ def parse_results(text):
     for line in text.splitlines():
         if not line: continue
         parts = line.split("\t")
-        res[parts[0]] = parts[1:]
+        res[parts[0]] = [] if parts[1:] == [""] else parts[1:]
     return res
 
 
-def run_hx(cases, timeout=1800):
+def _limits():
+    import resource
+    try:
+        # an input that makes the interpreter allocate without bound should fail fast, not take the machine down
+        resource.setrlimit(resource.RLIMIT_AS, (24 << 30, 24 << 30))
+    except Exception:
+        pass
+
+
+def _run_hx_once(cases, timeout):
     os.makedirs(os.path.join(BUILD, "tmp"), exist_ok=True)
     outp = os.path.join(BUILD, "tmp", "hx-out-%d.tsv" % os.getpid())
     env = dict(os.environ)
     env["HX_OUT"] = outp
     env["HX_TMP"] = os.path.join(BUILD, "tmp")
-    p = subprocess.run([HX], input=write_cases(cases), stdout=subprocess.DEVNULL, stderr=subprocess.PIPE,
-                       text=True, timeout=timeout, env=env)
-    if p.returncode != 0:
-        raise BuildError("hx-run", "exit %d: %s" % (p.returncode, p.stderr[-2000:]))
-    text = open(outp, errors="replace").read()
-    os.remove(outp)
-    return parse_results(text)
+    try:
+        p = subprocess.run([HX], input=write_cases(cases), stdout=subprocess.DEVNULL, stderr=subprocess.PIPE,
+                           text=True, timeout=timeout, env=env, preexec_fn=_limits)
+        rc, err = p.returncode, p.stderr
+    except subprocess.TimeoutExpired:
+        rc, err = -999, "timeout"
+    text = open(outp, errors="replace").read() if os.path.exists(outp) else ""
+    if os.path.exists(outp):
+        os.remove(outp)
+    return rc, err, parse_results(text)
+
+
+def run_hx(cases, timeout=1800):
+    """runs the cases on the real code. If the harness process dies (abort, stack overflow, out of
+    memory, timeout) the culprit case is found by bisection and gets the result `P process-died`;
+    the other cases are still run."""
+    rc, err, res = _run_hx_once(cases, timeout)
+    if rc == 0:
+        return res
+    if len(cases) == 1:
+        return {cases[0][0]: ["P process-died rc=%s %s" % (rc, err[-200:].replace("\n", " "))]}
+    # results before the crash are valid; rerun the rest split in two
+    done = [c for c in cases if c[0] in res]
+    rest = [c for c in cases if c[0] not in res]
+    if not rest:
+        return res
+    if len(rest) == 1:
+        res.update(run_hx(rest, timeout))
+        return res
+    # the first unfinished case is the likely culprit
+    res.update(run_hx(rest[:1], min(timeout, 120)))
+    res.update(run_hx(rest[1:], timeout))
+    return res
 
 
 def _big_stack():
